@@ -427,7 +427,13 @@ def check_kani_property(prop, spec, tier):
         # genuine counterexample candidate: replay
         log("[%s] counterexample in %s: %s" % (prop, h, "; ".join(f["desc"] for f in r["failed"][:4])))
         gcrate = g.get("crate", crate)
-        tests = concrete_playback(gcrate, h, cbmc_args=g.get("cbmc_args", ()), features=features)
+        tests = []
+        for _attempt in range(3):
+            # Kani does not always emit a playback test for the failed assertion (observed: only the
+            # cover witnesses were printed in one of two identical runs), so ask again if needed
+            tests = concrete_playback(gcrate, h, cbmc_args=g.get("cbmc_args", ()), features=features)
+            if tests:
+                break
         reproduced = False
         how = "none"
         chosen = None
